@@ -705,7 +705,25 @@ impl OverlayInode {
                         Some((mode, umask)) => {
                             parent_ri.mkdir(ctx, self.name.as_str(), mode, umask)?
                         }
-                        None => parent_ri.mkdir(ctx, self.name.as_str(), st.st_mode, 0)?,
+                        None => {
+                            let mut ri = parent_ri.mkdir(ctx, self.name.as_str(), st.st_mode, 0)?;
+                            // mkdir(2) keeps only the permission bits and the sticky bit: a copied-up
+                            // directory gets its set-uid / set-gid bits back explicitly.
+                            if st.st_mode & (libc::S_ISUID | libc::S_ISGID) != 0 {
+                                // Safe because stat64 is a plain-old-data struct.
+                                let mut attr: stat64 = unsafe { std::mem::zeroed() };
+                                attr.st_mode = st.st_mode & 0o7777;
+                                let (nst, _) = ri.layer.setattr(
+                                    ctx,
+                                    ri.inode,
+                                    attr,
+                                    None,
+                                    crate::api::filesystem::SetattrValid::MODE,
+                                )?;
+                                ri.stat = Some(nst);
+                            }
+                            ri
+                        }
                     };
                     // create directory here
                     child.replace(ri);
